@@ -526,6 +526,22 @@ impl C16 {
         let mut ud = [0u8; 256];
         fill_stream(src.u16() as u64, &mut ud);
         ctx.op(&(n, v6, protocol_id, client_id, timeout));
+        if ctx.src.chance(12) {
+            // an address list the format cannot carry (none, or more than 32) is refused with an error - no token, no panic
+            let mut bad = addrs.clone();
+            if ctx.src.chance(128) {
+                bad.clear();
+            } else {
+                let extra = ctx.src.below(8);
+                while bad.len() <= 32 + extra {
+                    bad.push(addrs[bad.len() % n]);
+                }
+            }
+            ctx.label("unrepresentable_address_list");
+            if let Ok(t) = ConnectToken::generate(now, protocol_id, expire, client_id, timeout, bad.clone(), Some(&ud), &key) {
+                return Err(Fail::new("token_generate", format!("generate accepted a list of {} addresses (token lists {})", bad.len(), t.server_addresses.iter().flatten().count())));
+            }
+        }
         let token = ConnectToken::generate(now, protocol_id, expire, client_id, timeout, addrs.clone(), Some(&ud), &key)
             .map_err(|e| Fail::new("token_generate", format!("generate refused a valid request: {e}")))?;
         renetcode::verif::set_rng_seed(None);
